@@ -20,7 +20,8 @@ import numpy as np
 
 from .. import fem
 from .. import universe as U
-from ..core import guarded, MachineryError
+from ..core import MachineryError
+from ..fem import guarded
 from ..project import fx
 from . import c01_law
 
@@ -102,6 +103,10 @@ def exec_split(rec):
         elem = basis.elem
         comps = basis.split_bases()
         if isinstance(elem, ElementComposite):
+            if not hasattr(elem, '_deduce_bfun'):
+                # the decode table is read through a private method; if a refactoring removes it the check has to be
+                # adapted - that is not a statement about the property
+                raise MachineryError('ElementComposite._deduce_bfun is gone: adapt harness/props/c19.py (decode observation)')
             etype = 'comp'
             acc = fem.accessors(basis.basis[0], attrs)
             coff = [sum(1 for a in acc if a[0] < n) for n in range(len(comps))]
